@@ -64,7 +64,8 @@ ASSUMPTIONS = [
     'clamps, ignores a time-to-drain that rounds to 0 s), an event between hydraulic instants when report step > '
     'hydraulic step (EPANET then steps from the event, WNTR returns to the grid), a state off EPANET\'s own PDA curve, '
     'heads below -1e5 m in EPANET\'s run of the independent text (infeasible model), EPANET\'s own instability warnings, an '
-    'open power pump without flow, link statuses that differ for a hydraulic or level-band reason',
+    'open power pump without flow, link statuses that differ for a hydraulic or level-band reason, relay chatter (an '
+    'uncommanded link toggling three times within eight solved instants)',
     'a run that either engine reports as not converged / unbalanced / error 110 is inconclusive; EPANET refusing the '
     'INP file that WNTR wrote (error 200) is a violation',
     'reservoir "pressure" is not compared between WNTR (0) and EPANET (head minus base head); links next to a tank are '
@@ -683,6 +684,28 @@ def zigzag_time(cx, T):
     return best
 
 
+def chatter_time(cx, T):
+    """first solved instant of a relay oscillation: a link that nothing commands (check valve, pump, regulating valve)
+    opens and closes at least three times within eight consecutive solved instants.  Seen: one pump filling two tanks,
+    one of them through a check-valve pipe; the heads stay within a millimetre of each other, the valve opens every
+    third Euler step, and the flow of each opening goes with the 0.54-th power of a head difference of 0.4 .. 0.9 mm
+    that already differs between two unit systems of EPANET itself (CFS 1.7 L/s, GPM 0.35 L/s, LPS 4.6 L/s for one
+    model).  No fixed allowance is sound from there on, for any pair of runs."""
+    n = len(T.all_times)
+    best = None
+    for j, l in enumerate(cx.lnames):
+        if l in cx.level_driven or l in cx.time_driven:
+            continue
+        tog = [i for i in range(1, n) if bool(T.open_all[i][j]) != bool(T.open_all[i - 1][j])]
+        for a in range(len(tog) - 2):
+            if tog[a + 2] - tog[a] <= 8:
+                t0 = T.all_times[tog[a]]
+                if best is None or t0 < best:
+                    best = t0
+                break
+    return best
+
+
 def fast_tank_time(cx, T):
     """first solved instant at which the net inflow of a tank would carry it over more than half of what is left of its
     range (in the direction of the flow) within one hydraulic step: a limit event or an overshoot is imminent, and what
@@ -1263,6 +1286,14 @@ def evaluate(case):
             n = keep
     if n == 0:
         return inconclusive('a tank level zig-zags from the first hydraulic step on (unstable explicit tank integration)', tags), diag
+    tc = chatter_time(cx, T)
+    if tc is not None:
+        keep = sum(1 for t in E1.times[:n] if t < tc)
+        if keep < n:
+            tags.append('cut:relay_chatter')
+            n = keep
+    if n == 0:
+        return inconclusive('an uncommanded link opens and closes from the first steps on (relay oscillation)', tags), diag
     tf = fast_tank_time(cx, T)
     n_w = n if tf is None else sum(1 for t in E1.times[:n] if t <= tf)
     thr_ev = threshold_events(cx, T)
